@@ -581,6 +581,13 @@ def custom_predicates_present(req, mode, impl):
     return True, ''
 
 
+def own_where_present(req, impl):
+    """every impl repeats the type's own where-clause, in every bound mode (an impl without it is not even well-formed)"""
+    if not req.where:
+        return True, ''
+    return custom_predicates_present(req, ('list', req.where), impl)
+
+
 def no_extra_predicates(req, tr, mode, impl, educed):
     """explicit modes add *exactly* the given predicates: with `bound = false` / `bound = ""` / `bound(..)` the emitted where-clause holds
     the type's own where-clause and the given predicates and nothing else (an automatic predicate sneaking in next to them can be
@@ -888,6 +895,12 @@ def c12_corpus(tier, seed):
     for tr in ['Debug', 'Clone', 'PartialEq', 'Hash', 'Default']:
         add('struct', rich, [('S', 'named', [Field(T), Field(PH(U)), Field(U8)], False)], [(tr, None)], where='T: Marker2')
     add('struct', rich, [('S', 'tuple', [Field(T, Deref='marker', DerefMut='marker'), Field(PH(U))], False)], [('Deref', None), ('DerefMut', None)], where='T: Marker2')
+    # Into targets for which the derive adds no predicate of its own (field already of the target type, method) on types
+    # that carry a where-clause: the type's own predicates must still be there
+    add('struct', TU0, [('S', 'named', [Field(T), Field(U8), Field(U)], False)], [('Into', None)], where='T: Marker2')
+    add('struct', TU0, [('S', 'named', [Field(T, Into='intom'), Field(U)], False)], [('Into', None)], where='U: Marker')
+    add('enum', TU0, [('A', 'tuple', [Field(U8), Field(T)], False), ('B', 'named', [Field(U8)], False)], [('Into', None)], where='T: Marker2')
+    add('struct', TU0, [('S', 'named', [Field(T, Into='into'), Field(U8, Into16='into'), Field(PH(U))], False)], [('Into', None), ('Into16', None)], where='U: Marker')
     # Default with a type-level expression: no field is delegated, explicit bound modes still apply (and `new` with them)
     for mi, mode in enumerate([None, '*', ('list', 'T: ' + TPATH['Default']), ('str', 'U: Marker'), False, ('list', 'T: Marker, U: ' + TPATH['Default'] + ',')]):
         ex = 'expression = anyv()' + (', new' if mi % 2 else '')
@@ -1195,6 +1208,10 @@ def main(prop, tier, seed, keep=False):
                 obligations += 1
                 if not okh:
                     header_bad.append((req, tr, why))
+                    continue
+                oko, why = own_where_present(req, im)
+                if not oko:
+                    header_bad.append((req, tr, 'the type\'s own where-clause is not repeated: ' + why))
                     continue
                 okc, why = custom_predicates_present(req, mode, im)
                 if not okc:
